@@ -27,14 +27,15 @@ type c10ev struct {
 }
 
 type c10bracket struct {
-	id      int
-	level   string // prop | custom
-	phase   string
-	ctxs    []context.Context
-	nextID  int
-	bodyEnd bool
-	parent  int
-	armed   bool
+	id        int
+	level     string // prop | custom
+	phase     string
+	ctxs      []context.Context
+	nextID    int
+	bodyEnd   bool
+	parent    int
+	armed     bool
+	skipArmed bool
 }
 
 type c10rec struct {
@@ -82,12 +83,16 @@ const (
 	c10Errorf
 	c10Ctx
 	c10Fatalf
+	c10Skip
 	nC10Kinds
 )
 
 func (r *c10rec) register(b *c10bracket, t *rapid.T, kind int, depth int) {
 	if !b.armed && (kind == c10Panic || kind == c10Errorf || kind == c10Fatalf) {
 		kind = c10None // failing cleanups only in the (data dependent) cases that are meant to fail
+	}
+	if kind == c10Skip && !b.skipArmed {
+		kind = c10None // skipping cleanups in about one case in eight
 	}
 	id := b.nextID
 	b.nextID++
@@ -112,6 +117,8 @@ func (r *c10rec) register(b *c10bracket, t *rapid.T, kind int, depth int) {
 			t.Errorf("cleanup %d errorf", id)
 		case c10Fatalf:
 			t.Fatalf("cleanup %d fatalf", id)
+		case c10Skip:
+			t.Skip("cleanup skips")
 		case c10Ctx:
 			c := t.Context() // asked for during cleanup: must be born cancelled
 			r.events = append(r.events, c10ev{br: b.id, kind: "ctx", live: c.Err() == nil, note: "obtained in cleanup"})
@@ -304,6 +311,7 @@ func c10Body(rec *c10rec, seed uint64) func(t *rapid.T) {
 		}
 		x := rapid.Uint16().Draw(t, "x")
 		b.armed = mix(uint64(x), salt)%den == 0 || mix(uint64(x), salt, 1)%den == 0
+		b.skipArmed = mix(uint64(x), salt, 2)%8 == 0
 		for i, k := range kinds {
 			rec.register(b, t, k, 0)
 			if i < len(customs) {
